@@ -173,12 +173,12 @@ fn state(session: u16, serial: u32) -> State {
 pub fn to_item(p: &WirePdu) -> Option<(Action, payload::Payload)> {
     match p {
         WirePdu::Ipv4 { flags, plen, maxlen, addr, asn, .. } => {
-            let prefix = Prefix::new_v4(Ipv4Addr::from(*addr), *plen).ok()?;
+            let prefix = Prefix::new_v4_relaxed(Ipv4Addr::from(*addr), *plen).ok()?;
             let mlp = MaxLenPrefix::new(prefix, Some(*maxlen)).ok()?;
             Some((Action::from_flags(*flags), payload::Payload::origin(mlp, Asn::from_u32(*asn))))
         }
         WirePdu::Ipv6 { flags, plen, maxlen, addr, asn, .. } => {
-            let prefix = Prefix::new_v6(Ipv6Addr::from(*addr), *plen).ok()?;
+            let prefix = Prefix::new_v6_relaxed(Ipv6Addr::from(*addr), *plen).ok()?;
             let mlp = MaxLenPrefix::new(prefix, Some(*maxlen)).ok()?;
             Some((Action::from_flags(*flags), payload::Payload::origin(mlp, Asn::from_u32(*asn))))
         }
@@ -599,6 +599,12 @@ struct ReadCase<'a> {
     stream: &'a [u8],
     /// Whether the writer closes after the stream (EOF) or just stalls.
     eof: bool,
+    /// The header of this stream was deliberately corrupted. The statement
+    /// then only requires termination with an error *or* a value faithful to
+    /// the bytes: a reader is free to reject e.g. version 200, non-zero
+    /// reserved bits or an oversized provider count, so acceptance is never
+    /// demanded for such streams.
+    corrupted: bool,
 }
 
 #[derive(Debug)]
@@ -749,7 +755,10 @@ fn check_read(
 ) -> Result<(), Violation> {
     let out = exec_read(ctx, case, frag)?;
     let site = format!("{:?}/{:?}", case.ty, case.entry);
-    let expect = model(case.ty, case.entry, case.stream);
+    let expect = match model(case.ty, case.entry, case.stream) {
+        Expect::Ok(w, n) if case.corrupted => Expect::Either(w, n),
+        e => e,
+    };
     let ann = if case.stream.len() >= 8 { be32(&case.stream[4..8]) as usize } else { 8 };
     match out {
         ReadOutcome::Waiting(consumed) => {
@@ -842,6 +851,178 @@ fn got_hex(g: &Got) -> String {
         Got::Value(b) => format!("Value({})", hex(b)),
         Got::ErrorHeader(b) => format!("ErrorHeader({})", hex(b)),
         Got::Skipped => "Skipped".into(),
+    }
+}
+
+
+//------------ Accessor audit ----------------------------------------------------
+
+/// Polls a future that can never be pending (it reads from a slice).
+fn now<T>(fut: impl std::future::Future<Output = T>) -> T {
+    let mut t = Task::new(fut);
+    if !t.poll() {
+        crate::common::harness_fail("slice-backed read was pending");
+    }
+    t.done.take().unwrap()
+}
+
+/// Reads the PDU back from its wire bytes and compares every public accessor
+/// of the value with the generated fields ("yields the same item, action,
+/// version, session and serial").
+fn accessor_audit(p: &WirePdu) -> Result<(), Violation> {
+    let enc = p.encode();
+    let site = format!("accessors/type-{}", p.type_code());
+    let bad = |what: &str, got: String, want: String| {
+        Err(Violation::new(
+            "accessor-mismatch",
+            format!("type-{}/{}", p.type_code(), what),
+            format!("{} read back from {}: {} is {}, expected {}", wire::describe(p), hex(&enc), what, got, want),
+        ))
+    };
+    macro_rules! eq {
+        ($what:expr, $got:expr, $want:expr) => {
+            if $got != $want {
+                return bad($what, format!("{:?}", $got), format!("{:?}", $want));
+            }
+        };
+    }
+    guarded(&site, || {
+        let mut src = &enc[..];
+        match p {
+            WirePdu::SerialNotify { v, session, .. } => {
+                let x = now(pdu::SerialNotify::read(&mut src)).map_err(|e| Violation::new("spurious-error", site.clone(), e.to_string()))?;
+                eq!("version", x.version(), *v);
+                eq!("session", x.session(), *session);
+                eq!("size", pdu::SerialNotify::size() as usize, enc.len());
+            }
+            WirePdu::SerialQuery { v, session, serial } => {
+                let h = now(pdu::Header::read(&mut src)).map_err(|e| Violation::new("spurious-error", site.clone(), e.to_string()))?;
+                let pl = now(pdu::SerialQueryPayload::read(&mut src)).map_err(|e| Violation::new("spurious-error", site.clone(), e.to_string()))?;
+                eq!("header.version", h.version(), *v);
+                eq!("header.pdu", h.pdu(), wire::T_SERIAL_QUERY);
+                eq!("header.session", h.session(), *session);
+                eq!("header.length", h.length(), 12u32);
+                eq!("header.pdu_len", h.pdu_len().ok(), Some(12usize));
+                eq!("payload.serial", u32::from(pl.serial()), *serial);
+            }
+            WirePdu::ResetQuery { v } => {
+                let x = now(pdu::ResetQuery::read(&mut src)).map_err(|e| Violation::new("spurious-error", site.clone(), e.to_string()))?;
+                eq!("version", x.version(), *v);
+            }
+            WirePdu::CacheResponse { v, session } => {
+                let x = now(pdu::CacheResponse::read(&mut src)).map_err(|e| Violation::new("spurious-error", site.clone(), e.to_string()))?;
+                eq!("version", x.version(), *v);
+                eq!("session", x.session(), *session);
+            }
+            WirePdu::CacheReset { v } => {
+                let x = now(pdu::CacheReset::read(&mut src)).map_err(|e| Violation::new("spurious-error", site.clone(), e.to_string()))?;
+                eq!("version", x.version(), *v);
+            }
+            WirePdu::EndOfData { v, session, serial, timing } => {
+                let r = now(pdu::Payload::read(&mut src)).map_err(|e| Violation::new("spurious-error", site.clone(), e.to_string()))?;
+                let eod = match r {
+                    Err(eod) => eod,
+                    Ok(_) => return bad("kind", "payload".into(), "end of data".into()),
+                };
+                eq!("version", eod.version(), *v);
+                eq!("session", eod.session(), *session);
+                eq!("serial", u32::from(eod.serial()), *serial);
+                eq!("state.session", eod.state().session(), *session);
+                eq!("state.serial", u32::from(eod.state().serial()), *serial);
+                eq!("timing", eod.timing().map(|t| (t.refresh, t.retry, t.expire)), *timing);
+            }
+            WirePdu::Ipv4 { .. } | WirePdu::Ipv6 { .. } | WirePdu::RouterKey { .. } | WirePdu::Aspa { .. } => {
+                let r = now(pdu::Payload::read(&mut src)).map_err(|e| Violation::new("spurious-error", site.clone(), e.to_string()))?;
+                let pl = match r {
+                    Ok(Some(pl)) => pl,
+                    _ => return bad("kind", "not a payload".into(), "payload".into()),
+                };
+                eq!("version", pl.version(), p.version());
+                match (&pl, p) {
+                    (pdu::Payload::V4(x), WirePdu::Ipv4 { flags, plen, maxlen, addr, asn, .. }) => {
+                        eq!("flags", x.flags(), *flags);
+                        eq!("prefix_len", x.prefix_len(), *plen);
+                        eq!("max_len", x.max_len(), *maxlen);
+                        eq!("prefix", u32::from(x.prefix()), *addr);
+                        eq!("asn", x.asn().into_u32(), *asn);
+                    }
+                    (pdu::Payload::V6(x), WirePdu::Ipv6 { flags, plen, maxlen, addr, asn, .. }) => {
+                        eq!("flags", x.flags(), *flags);
+                        eq!("prefix_len", x.prefix_len(), *plen);
+                        eq!("max_len", x.max_len(), *maxlen);
+                        eq!("prefix", u128::from(x.prefix()), *addr);
+                        eq!("asn", x.asn().into_u32(), *asn);
+                    }
+                    (pdu::Payload::RouterKey(x), WirePdu::RouterKey { flags, ski, asn, spki, .. }) => {
+                        eq!("flags", x.flags(), *flags);
+                        eq!("key_identifier", x.key_identifier(), *ski);
+                        eq!("asn", x.asn().into_u32(), *asn);
+                        eq!("key_info", x.key_info().as_slice(), &spki[..]);
+                        eq!("size", x.size() as usize, enc.len());
+                    }
+                    (pdu::Payload::Aspa(x), WirePdu::Aspa { flags, customer, providers, .. }) => {
+                        eq!("flags", x.flags(), *flags);
+                        eq!("customer", x.customer().into_u32(), *customer);
+                        eq!("providers", x.providers().iter().map(|a| a.into_u32()).collect::<Vec<_>>(), *providers);
+                        eq!("size", x.size() as usize, enc.len());
+                        if providers.len() <= 65535 {
+                            eq!("asn_count", x.providers().asn_count() as usize, providers.len());
+                        }
+                    }
+                    _ => return bad("variant", format!("{:?}", pl), wire::describe(p)),
+                }
+                eq!("payload.flags", pl.flags(), match p {
+                    WirePdu::Ipv4 { flags, .. } | WirePdu::Ipv6 { flags, .. } | WirePdu::RouterKey { flags, .. } | WirePdu::Aspa { flags, .. } => *flags,
+                    _ => 0,
+                });
+                // to_payload agrees with the independent notion of validity
+                let want = to_item(p);
+                match (pl.to_payload(), want) {
+                    (Ok((a, it)), Some((wa, wit))) => {
+                        let same = match (&it, &wit) {
+                            (payload::Payload::Aspa(x), payload::Payload::Aspa(y)) if wa == Action::Withdraw => x.customer == y.customer,
+                            _ => it == wit,
+                        };
+                        if a != wa || !same {
+                            return bad("to_payload", format!("{:?}/{:?}", a, it), format!("{:?}/{:?}", wa, wit));
+                        }
+                    }
+                    (Err(_), None) => {}
+                    (Ok((a, it)), None) => {
+                        return bad("to_payload", format!("accepted as {:?}/{:?}", a, it), "rejection (prefix length / max length out of range)".into());
+                    }
+                    (Err(_), Some((wa, wit))) => {
+                        return bad("to_payload", "rejected".into(), format!("{:?}/{:?}", wa, wit));
+                    }
+                }
+            }
+            WirePdu::Error { .. } | WirePdu::Unknown { .. } => {}
+        }
+        Ok(())
+    })
+}
+
+/// Payload PDUs whose body is invalid (prefix length beyond the family, max
+/// length below the prefix length or beyond the family): they must read fine
+/// and be rejected by `to_payload` without a panic.
+fn gen_invalid_origin(t: &mut Tape) -> WirePdu {
+    let v = t.choose(3) as u8;
+    let flags = t.choose(2) as u8;
+    let v6 = t.chance(1, 2);
+    let w: u8 = if v6 { 128 } else { 32 };
+    let (plen, maxlen) = match t.choose(4) {
+        0 => (w + 1 + t.choose(100) as u8, w),
+        1 => (t.choose(w as u64 + 1) as u8, w + 1 + t.choose(100) as u8),
+        2 => {
+            let pl = 1 + t.choose(w as u64) as u8;
+            (pl, t.choose(pl as u64) as u8)
+        }
+        _ => (255, 255),
+    };
+    if v6 {
+        WirePdu::Ipv6 { v, flags, plen, maxlen, addr: 0x2001_0db8u128 << 96, asn: gen_u32(t) }
+    } else {
+        WirePdu::Ipv4 { v, flags, plen, maxlen, addr: 0xC000_0200, asn: gen_u32(t) }
     }
 }
 
@@ -1068,7 +1249,7 @@ impl C07 {
         let enc = p.encode();
         // through the wire
         let frag = Frag { mode: 2, short_reads: true, spurious: 0 };
-        let case = ReadCase { ty: Ty::Any, entry: Entry::PayloadRead, stream: &enc, eof: true };
+        let case = ReadCase { ty: Ty::Any, entry: Entry::PayloadRead, stream: &enc, eof: true, corrupted: false };
         check_read(ctx, &case, frag, "item")?;
         // and the pure conversion
         guarded("to_payload", || {
@@ -1118,7 +1299,10 @@ impl Scenario for C07 {
         let ctx = Arc::new(SimCtx::new(tape, log, 50_000_000));
         let mut out = RunOut::default();
         let mut counters = Counters::default();
-        let res = self.run_inner(kind, tier, &ctx, &mut out, &mut counters);
+        let res = match std::panic::catch_unwind(std::panic::AssertUnwindSafe(|| self.run_inner(kind, tier, &ctx, &mut out, &mut counters))) {
+            Ok(r) => r,
+            Err(p) => Err(crate::exec::violation_from_panic("run", p)),
+        };
         out.violation = res.err();
         counters.merge(&ctx.counters.lock().unwrap());
         out.counters = counters;
@@ -1166,8 +1350,8 @@ impl Scenario for C07 {
         vec![
             "the independent codec and the reader reference model in c07.rs transcribe the RFC layouts correctly",
             "a stream socket never reorders, duplicates or corrupts bytes on its own; corruption is injected only in the 8-byte header as the statement asks",
-            "a corrupted header that is still a well-formed PDU for the reader must be read as the value its bytes denote; read_payload handed a header of another type may either fail or return that value",
-            "the version field is not validated by the type-specific readers (only End of Data layout depends on it); 'wrong version' is required to terminate, not necessarily to fail",
+            "for a deliberately corrupted header the reader must terminate within the byte bound with an error OR the value its bytes denote (never a different value, never a hang); acceptance is only demanded for intact PDUs",
+            "read_payload handed a header of another type may either fail or return the value the bytes denote",
         ]
     }
 }
@@ -1229,6 +1413,15 @@ impl C07 {
                 out.evaluations += 1;
                 counters.bump("item_roundtrips");
             }
+            accessor_audit(p)?;
+            out.evaluations += 1;
+            counters.bump("accessor_audits");
+        }
+        {
+            let bad = { let mut t = ctx.tape.lock().unwrap(); gen_invalid_origin(&mut t) };
+            accessor_audit(&bad)?;
+            out.evaluations += 1;
+            counters.bump("invalid_origin_bodies");
         }
 
         // Whole-sequence truncations (sampled): PDUs before the cut decode,
@@ -1249,7 +1442,7 @@ impl C07 {
                 let mut k = 0usize;
                 while k < enc.len() {
                     let frag = { let mut t = ctx.tape.lock().unwrap(); Frag::gen(&mut t) };
-                    let case = ReadCase { ty, entry, stream: &enc[..k], eof: true };
+                    let case = ReadCase { ty, entry, stream: &enc[..k], eof: true, corrupted: false };
                     ctx.ev(2, k as u64, || format!("truncate {:?}/{:?} pdu#{} at {} (EOF) frag={:?}", ty, entry, i, k, frag));
                     check_read(ctx, &case, frag, &format!("truncated at {} of {}", k, enc.len()))?;
                     out.evaluations += 1;
@@ -1258,7 +1451,7 @@ impl C07 {
                     // the same prefix without EOF: the reader may wait, it
                     // must not fail or spin
                     if k < 24 || ctx.chance(1, 8) {
-                        let case = ReadCase { ty, entry, stream: &enc[..k], eof: false };
+                        let case = ReadCase { ty, entry, stream: &enc[..k], eof: false, corrupted: false };
                         check_read(ctx, &case, frag, &format!("stalled at {} of {}", k, enc.len()))?;
                         out.evaluations += 1;
                         out.sub_sigs.push(fnv(&enc[..k]) ^ ((entry as u64) << 56) ^ ((ty as u64) << 48) ^ 2);
@@ -1274,7 +1467,7 @@ impl C07 {
                     }
                     c.extend_from_slice(rest);
                     let frag = { let mut t = ctx.tape.lock().unwrap(); Frag::gen(&mut t) };
-                    let case = ReadCase { ty, entry, stream: &c, eof: true };
+                    let case = ReadCase { ty, entry, stream: &c, eof: true, corrupted: true };
                     ctx.ev(3, fnv(name.as_bytes()), || format!("corrupt {:?}/{:?} pdu#{} {} frag={:?}", ty, entry, i, name, frag));
                     check_read(ctx, &case, frag, &name)?;
                     out.evaluations += 1;
@@ -1293,7 +1486,7 @@ impl C07 {
                 let mut c = enc.clone();
                 c.extend_from_slice(rest);
                 let frag = { let mut t = ctx.tape.lock().unwrap(); Frag::gen(&mut t) };
-                let case = ReadCase { ty, entry, stream: &c, eof: true };
+                let case = ReadCase { ty, entry, stream: &c, eof: true, corrupted: false };
                 check_read(ctx, &case, frag, "intact+rest")?;
                 out.evaluations += 1;
             }
